@@ -97,7 +97,9 @@ static long rd_hook(int fd, void *buf, unsigned long n)
 	nrec = nM;
 	for (i = 0; i < nrec; i++) {
 		struct inotify_event *ev = (struct inotify_event *)p;
-		int namelen = sx_choose(2) ? 16 : 0;
+		/* no name, a short name, or the longest the kernel produces (255 characters + NUL = 256) */
+		int nl = sx_choose(3);
+		int namelen = nl == 0 ? 0 : nl == 1 ? 16 : 256;
 		recaddr[i] = ev;
 		rec_wd[i] = sx_long("rec.wd", 0, nW + 1);
 		rec_ignored[i] = sx_long("rec.ignored", 0, 1);
@@ -106,8 +108,10 @@ static long rd_hook(int fd, void *buf, unsigned long n)
 		ev->cookie = (uint32_t)sx_long("rec.cookie", 0, 0xffffffffL);
 		ev->len = (uint32_t)namelen;
 		if (namelen) {
-			memset(ev->name, 0, 16);
+			memset(ev->name, 0, namelen);
 			ev->name[0] = 'f';
+			if (namelen > 16)
+				sx_cover("inotify.record-with-longest-name");
 			sx_cover("inotify.record-with-name");
 		}
 		p += sizeof(*ev) + namelen;
